@@ -62,11 +62,23 @@ def oracle(case) -> Result:
         # export must follow the CURRENT coefficients whether or not a forward pass with them
         # happened: alternate the order (the previous combination's hard sample is then stale)
         export_first = (len(winners) + sum(winners.values()) + case['aseed']) % 2 == 0
-        exported = must(res, 'export', sn.export) if export_first else None
+        # ... and it is asked for in the middle of a search epoch (model in training mode) in
+        # half of the cases: the export must not run anything in training mode (BatchNorm statistics
+        # of the layers it shares with the SuperNet would move)
+        in_train = (case['aseed'] // 2) % 2 == 1
+
+        def do_export():
+            if in_train:
+                sn.train()
+            try:
+                return sn.export()
+            finally:
+                sn.eval()
+        exported = must(res, 'export', do_export) if export_first else None
         with torch.no_grad():
             y_sn = must(res, 'supernet-forward', sn, x)
         if not export_first:
-            exported = must(res, 'export', sn.export)
+            exported = must(res, 'export', do_export)
         if y_sn is None or exported is None:
             return res
         exported.eval()
